@@ -160,7 +160,9 @@ pub fn decode_session(bytes: &[u8], explicit_len: Option<usize>) -> Vec<Message>
     // bias towards sessions that get through initialization
     let proper_start = explicit_len.is_none() && s.chance(3, 4);
     let mut msgs = Vec::new();
-    let mut id = 1i64;
+    // request ids: usually counting from 1; sometimes from 0, from a negative number or close to
+    // the largest id the server's `i32` can hold
+    let mut id = if explicit_len.is_none() && s.chance(1, 6) { *s.pick(&[0i64, -7, 2147483000, 65535, 1000000]) } else { 1i64 };
     if proper_start {
         msgs.push(build_message(Sym::Initialize, id, &mut s));
         id += 1;
